@@ -92,6 +92,26 @@ CHECKS["C20"] = dict(
     note="Trusted: TLC, Json, reduction of error messages to classes. 2-3 names to depth 3-5 exhaustively, random to 50 ops; package.loaders/loaded/preload tables never replaced.",
     specs=["Require", "RequireMC", "RequireTrace"])
 
+CHECKS["C13"] = dict(
+    technique="TLA+ channel spec model-checked by TLC over all interleavings; real multi-goroutine runs accepted only if TLC finds an interleaving of the per-state logs the spec allows (witness validation); shared-prototype runs compared with sequential LuaSem-validated traces; harness built with -race",
+    category="model_checking",
+    text="TLC enumerates every interleaving of up to 3 processes on up to 2 channels (capacity 0..2) against history laws (exactly-once, FIFO, per-sender order, closed-channel rules, select only ready cases, refused payloads never travel). Thousands of real runs of 2-8 LStates in goroutines (GOMAXPROCS 1/4/16) log call/return of every channel operation per state; ChannelTrace must find an explaining interleaving. States created from one shared FunctionProto while others are created/compiled/closed must produce exactly the sequential trace, the prototype snapshot must be unchanged, and a race report on interpreter memory fails the run.",
+    design_ref="DESIGN.md section 4 C13",
+    note="The Go scheduler is sampled, not enumerated; the Go race detector is a trusted oracle outside TLA+. Payload admissibility judged on the top-level value only.",
+    specs=["Channel", "ChannelMC", "ChannelTrace", "LuaSemTrace"])
+CHECKS["C14"] = dict(
+    technique="TLA+ transcription of lstrlib.c's backtracking matcher and find/match/gmatch/gsub drivers (Pattern) with laws model-checked by TLC over a bounded-exhaustive pattern x subject scope; the same run exports reference results compared with the real functions; random calls validated by PatternTrace",
+    category="model_checking",
+    text="TLC proves on every pattern <=3 (thorough <=4) over 16 pattern symbols x every subject in scope that the transcription is self-consistent (well-formedness = lazy errors, soundness/completeness against a declarative set semantics for the capture-free fragment, greedy maximal / lazy minimal, capture bookkeeping, drivers agree, 27 manual vectors). For exactly that scope every real call of find/match (init -5..5), gmatch and gsub (7 replacement kinds) is compared with the outcomes TLC computes (up to 32.6M calls), plus seeded random longer cases decided by TLC; large inputs must end in a value or a Lua error in time.",
+    design_ref="DESIGN.md section 4 C14",
+    note="Trusted: TLC, Json, faithfulness of the transcription (supported by laws and vectors), harness projection. No byte 0 in patterns, no %f; error texts not compared.",
+    specs=["Pattern", "PatternMC", "PatternTrace"])
+CHECKS["C17"] = dict(
+    technique="LuaSem with per-layout token lines evaluated by TLC: error positions, error level 2, debug.getinfo lines, debug.getlocal/getupvalue enumeration and setlocal/setupvalue; real traces validated by LuaSemTrace under several layouts",
+    category="model_checking",
+    text="One failing construct of 11 kinds in each of 15 statement positions is rendered under layouts {canonical, blank and comment lines of every form inserted, line breaks inside statements} x {LF, CRLF, CR}; the reported chunk:line: must be the statement's line (any line of the statement when it spans several), level 2 the calling statement; debug.getinfo currentline/linedefined/lastlinedefined and the named locals/upvalues enumerated (and set) at levels 1-3 in random nestings with shadowing must be what the TLA+ semantics defines for that layout.",
+    design_ref="DESIGN.md section 4 C17", note=LSEM_NOTE + " Upvalues compared by name (order not fixed by the manual); internal/temporary slots filtered by name.", specs=["LuaSem", "LuaSemTrace"])
+
 NOT_YET = {}
 
 
